@@ -110,6 +110,40 @@ fn is_crlf_free(bytes: &[u8]) -> bool {
     !bytes.iter().any(|b| *b == b'\r' || *b == b'\n')
 }
 
+/// RFC 9110 §5.6.2 `tchar`.
+fn is_tchar(b: u8) -> bool {
+    matches!(
+        b,
+        b'!' | b'#' | b'$' | b'%' | b'&' | b'\'' | b'*' | b'+' | b'-' | b'.' | b'^' | b'_' | b'`' | b'|' | b'~'
+    ) || b.is_ascii_alphanumeric()
+}
+
+/// Checks on the head of an HTTP/1 request that kawa's parser leaves to its
+/// caller. Returns why the request must be answered with 400 instead of
+/// being forwarded. Only the fields that WOULD be forwarded (not elided by
+/// the parser) are looked at: those are what the backend will read, and a
+/// backend that reads them differently from kawa disagrees with Sōzu on
+/// where the request ends (CWE-444).
+///
+/// - field names are tokens (RFC 9110 §5.1); kawa lets `"`, `/` and the
+///   empty name through.
+fn h1_request_head_error(request: &GenericHttpStream) -> Option<&'static str> {
+    let buf = request.storage.buffer();
+    for block in &request.blocks {
+        let kawa::Block::Header(header) = block else {
+            continue;
+        };
+        if header.is_elided() {
+            continue;
+        }
+        let key = header.key.data(buf);
+        if key.is_empty() || !key.iter().all(|&b| is_tchar(b)) {
+            return Some("Invalid field name");
+        }
+    }
+    None
+}
+
 /// Write the ";for=..;by=.." portion of a Forwarded header into `buf`
 /// without heap-allocating a `String`.
 ///
@@ -560,6 +594,15 @@ impl HttpContext {
         // Empty, length preserved) or pushes new headers. Snapshot the count
         // so the postcondition can pin "blocks only grow" for the whole edit.
         let blocks_at_entry = request.blocks.len();
+
+        // HTTP/1 requests only: the H2 path validates its header list in pkawa
+        // and is still in its initial phase when this callback runs.
+        if request.is_main_phase() {
+            if let Some(reason) = h1_request_head_error(request) {
+                request.parsing_phase.error(reason.into());
+                return;
+            }
+        }
 
         // RFC 9112 §6.3 (7): a request that carries neither Content-Length nor
         // Transfer-Encoding has no body. kawa's HTTP/1 parser leaves such a
